@@ -4,7 +4,7 @@ import io, os, re, time
 from fractions import Fraction
 from ..session import Sess, find_errors
 from .. import core
-from ..bigval import validate_parallel
+from ..bigval import validate_parallel, mbf_bytes
 
 LEVEL = 'exploration'
 META = {
@@ -31,36 +31,6 @@ META = {
 
 # ---------------------------------------------------------------------------------------------------------------
 # generators (inputs only)
-
-def mbf_bytes(x, n):
-    """Bytes of the MBF number of n bytes nearest to the Fraction/int x (generator helper; None if out of range)."""
-    x = Fraction(x)
-    if x == 0:
-        return [0] * n
-    neg = x < 0
-    x = abs(x)
-    w = 8 * (n - 1)
-    e = 0
-    # x = m * 2^(e - w) with 2^(w-1) <= m < 2^w
-    num, den = x.numerator, x.denominator
-    e = num.bit_length() - den.bit_length()
-    while Fraction(2) ** e <= x:
-        e += 1
-    while Fraction(2) ** (e - 1) > x:
-        e -= 1
-    m = x / Fraction(2) ** (e - w)
-    m = int(m + Fraction(1, 2))
-    if m >= 1 << w:
-        m >>= 1
-        e += 1
-    eb = e + 128
-    if not 1 <= eb <= 255:
-        return None
-    b = list((m & ((1 << (w - 1)) - 1)).to_bytes(n - 1, 'little'))
-    if neg:
-        b[n - 2] |= 0x80
-    return b + [eb]
-
 
 def nudge(b, d):
     """The number d units in the last place away (same exponent unless the mantissa wraps)."""
